@@ -163,9 +163,11 @@ def _selects_bracketed_axis(p, f, a):
     for nm in names:
         r = p.resolve_chain(f.module, [nm])
         if r and r[0] == "func":
-            body = " ".join(norm(st) for st in r[1].node.body)
-            if "is_in_brackets" in body or "Brackets" in body:
-                return True
+            # the selector itself or what it is written in terms of (a helper / a small record class)
+            for g in common.with_helpers(p, r[1], depth=2):
+                body = " ".join(norm(st) for st in g.node.body)
+                if "is_in_brackets" in body or "Brackets" in body:
+                    return True
     return False
 
 
